@@ -559,3 +559,58 @@ func ruleDateTwoDigit(c *Ctx, r *R) {
 		r.undecided("sites", "-", "UNRESOLVED: no comparison with 99 in a function that adds 1900")
 	}
 }
+
+func init() {
+	register(&Rule{ID: "DATE-revive", Props: []string{"C12"}, Min: 2,
+		Doc: "T (ES5 15.9.5.40 / 15.9.5.41 step 1: `if this time value is NaN, let t be +0`): setFullYear and setUTCFullYear are the setters that bring an invalid date back. The function bound to each of the two names (or a helper it calls first) tests the date's isNaN flag and, on the NaN side, sets the time value 0 (a call of the date's Set with the constant 0); every other setter leaves through the shared NaN exit",
+		Run: ruleDateRevive})
+}
+
+func ruleDateRevive(c *Ctx, r *R) {
+	fns := c.Shape().boundSSA(c, "Date.prototype")
+	revives := func(fn *ssa.Function) bool {
+		if fn == nil {
+			return false
+		}
+		for _, b := range fn.Blocks {
+			iff, ok := b.Instrs[len(b.Instrs)-1].(*ssa.If)
+			if !ok {
+				continue
+			}
+			a := loadAddr(iff.Cond)
+			if a == nil || !isFieldAddr(a, "dateObject", "isNaN") {
+				continue
+			}
+			for _, ins := range b.Succs[0].Instrs {
+				if call, ok := ins.(*ssa.Call); ok {
+					if callee := call.Call.StaticCallee(); callee != nil && callee.Name() == "Set" && len(call.Call.Args) == 2 {
+						if k, ok := call.Call.Args[1].(*ssa.Const); ok && k.Value != nil && (k.Value.ExactString() == "0") {
+							return true
+						}
+					}
+				}
+			}
+		}
+		return false
+	}
+	for _, name := range []string{"setFullYear", "setUTCFullYear"} {
+		fn := fns[name]
+		if fn == nil {
+			r.undecided(name, "-", "UNRESOLVED: Date.prototype."+name)
+			continue
+		}
+		ok := revives(fn)
+		if !ok && len(fn.Blocks) > 0 {
+			for _, b := range fn.Blocks {
+				for _, ins := range b.Instrs {
+					if call, isCall := ins.(*ssa.Call); isCall {
+						if callee := call.Call.StaticCallee(); callee != nil && callee.Pkg == fn.Pkg && revives(callee) {
+							ok = true
+						}
+					}
+				}
+			}
+		}
+		r.check(ok, name, c.Pos(fn.Pos()), "an invalid date is restarted from the time value +0", "Date.prototype."+name+" leaves an invalid date invalid: `new Date(NaN)."+name+"(2000)` is NaN; ES5 15.9.5.40/41 step 1 restarts from t = +0 (the result is 946684800000 for the UTC variant)")
+	}
+}
